@@ -1,7 +1,7 @@
 -------------------------- MODULE ZonedRoundMachine --------------------------
 (* State machine over ZonedRound: a (zone, instant) reference and a duration; one step per round / total / compare call. *)
 EXTENDS ZonedRound
-CONSTANTS Zones, Instants, Durs, Opts, TotalUnits, OneStep        \* Opts: [lg, sm, inc, mode]
+CONSTANTS Zones, Instants, Durs, Opts, TotalUnits, DiffModes, OneStep        \* Opts: [lg, sm, inc, mode]; DiffModes: modes tried for until / since
 VARIABLES cur, last
 vars == <<cur, last>>
 None == [op |-> "none"]
@@ -14,14 +14,22 @@ IncOK(o) == /\ UnitLe(o.sm, o.lg)
             /\ (o.sm = "hour" => 24 % o.inc = 0 /\ o.inc < 24) /\ (o.sm \in {"minute", "second"} => 60 % o.inc = 0 /\ o.inc < 60)
 RoundAct(o) == last' = [op |-> "round", z |-> cur.z, t |-> cur.t, dur |-> cur.dur, o |-> o, out |-> ZRoundRel(cur.z, cur.t, cur.dur, o.lg, o.sm, o.inc, o.mode)] /\ UNCHANGED cur
 TotalAct(u) == last' = [op |-> "total", z |-> cur.z, t |-> cur.t, dur |-> cur.dur, u |-> u, out |-> ZTotalRel(cur.z, cur.t, cur.dur, u)] /\ UNCHANGED cur
+DiffRAct(t2, o, since) == last' = [op |-> IF since THEN "sinceR" ELSE "untilR", z |-> cur.z, t |-> cur.t, t2 |-> t2, o |-> o, dur |-> cur.dur,
+                                      out |-> ZDiffRounded(cur.z, cur.t, t2, o.lg, o.sm, o.inc, o.mode, since)] /\ UNCHANGED cur
 CmpAct(b) == last' = [op |-> "compare", z |-> cur.z, t |-> cur.t, dur |-> cur.dur, b |-> b, out |-> ZCompareRel(cur.z, cur.t, cur.dur, b)] /\ UNCHANGED cur
 Next == /\ (OneStep => last = None)
         /\ \/ \E o \in Opts : IncOK(o) /\ RoundAct(o)
            \/ \E u \in TotalUnits : TotalAct(u)
            \/ \E b \in Durs : CmpAct(b)
+           \* until / since with rounding options: the other instant is where the state's duration leads (so every duration is also a pair)
+           \/ \E o \in Opts, since \in BOOLEAN : IncOK(o) /\ o.mode \in DiffModes /\ ZAdd(cur.z, cur.t, cur.dur, "constrain").kind = "ok"
+                  /\ DiffRAct(ZAdd(cur.z, cur.t, cur.dur, "constrain").val, o, since)
 Spec == Init /\ [][Next]_vars
 
 IsRound == last.op = "round" /\ last.out.kind = "ok"
+\* since is until with the mode negated and the result negated
+SinceLawZ == (last.op = "sinceR" /\ last.out.kind = "ok") =>
+  LET u == ZDiffRounded(last.z, last.t, last.t2, last.o.lg, last.o.sm, last.o.inc, NegateMode(last.o.mode), FALSE) IN u.kind = "ok" => u.val = NegDur(last.out.val)
 \* Candidate law, REFUTED by TLC on the model and therefore not checked: "rounding to whole seconds with increment 1 gives the re-measured
 \* duration itself". NudgeToZonedTime turns a time part that spans the whole (23 h) day into one day: from 02:00 the day after a
 \* spring-forward gap, -P1D leads to 03:00 the day before (23 h earlier); re-measured that is -PT23H, rounded to seconds it is -P1D.
